@@ -48,7 +48,7 @@ class Cfg:
     def __init__(self, naming="distinct", method_form=0.3, members=None, called_lambdas=True, odd_selectors=False,
                  containers=True, ifexp=True, keywords_in_called=True, first=True, lists=True, dict_attr=True,
                  comprehension=False, count_fn=True, first_on_seq=True, genexp=False,
-                 captures=False, helpers=False, record_ctor=False, free_scalar=False, first_of_packages=True, higher_order=False, kwonly_in_called=False, dict_method_keys=False, duplicate_keys=True):
+                 captures=False, helpers=False, record_ctor=False, free_scalar=False, first_of_packages=True, higher_order=False, kwonly_in_called=False, dict_method_keys=False, duplicate_keys=True, seq_of_packages=False):
         self.naming = naming
         self.method_form = method_form
         self.members = members or MEMBERS
@@ -72,6 +72,7 @@ class Cfg:
         self.kwonly_in_called = kwonly_in_called
         self.dict_method_keys = dict_method_keys
         self.duplicate_keys = duplicate_keys
+        self.seq_of_packages = seq_of_packages
         self.free_scalar = free_scalar
 
 
@@ -82,6 +83,7 @@ class Ctx:
         self.draw = draw
         self.cfg = cfg
         self.n = 0
+        self.used_seq_of_packages = False
 
     def fresh(self, env):
         pool = NAME_POOLS[self.cfg.naming]
@@ -179,7 +181,7 @@ def gen(cx: Ctx, env, ty, depth) -> str:
         return _obj(cx, env, ty, depth)
     if k == "S":
         return _seq(cx, env, ty[1], depth)
-    if k in ("T", "L", "R") and cx.cfg.first and cx.cfg.first_of_packages and depth >= 1 and cx.chance(2):
+    if k in ("T", "L", "R") and cx.cfg.first and cx.cfg.first_of_packages and depth >= 1 and cx.chance(2) and (cx.cfg.first_on_seq or not _contains_seq(ty)):
         # the package is the First() of a sequence of packages: a later projection reaches the First only after substitution
         src, st_ = _source(cx, env)
         w = cx.fresh(env)
@@ -218,6 +220,16 @@ def gen(cx: Ctx, env, ty, depth) -> str:
         kws = list(cx.draw(st.permutations(kws)))
         return f"{cls}({', '.join(items[:npos] + kws)})"
     raise ValueError(ty)
+
+
+def _contains_seq(ty):
+    if ty[0] == "S":
+        return True
+    if ty[0] in ("T", "L"):
+        return any(_contains_seq(t) for t in ty[1])
+    if ty[0] in ("R", "D"):
+        return any(_contains_seq(t) for _, t in ty[1])
+    return False
 
 
 def _first(cx: Ctx, s: str) -> str:
@@ -408,6 +420,12 @@ def any_type(cx: Ctx, env, depth):
             keys = cx.draw(st.permutations(DICT_METHOD_KEYS))[:n]
             return ("R", tuple((key, any_type(cx, env, depth - 1)) for key in keys))
         return (kind, tuple((f"f_{chr(97 + i)}", any_type(cx, env, depth - 1)) for i in range(n)))
+    if c == 8 and cx.cfg.seq_of_packages and cx.cfg.containers and cx.chance(5):
+        # a sequence whose ELEMENTS are packages: built by a Select in the producing stage, taken apart element by element later
+        kind = cx.pick(["T", "T", "L", "R"]) if cx.cfg.lists else cx.pick(["T", "R"])
+        cx.used_seq_of_packages = True
+        et = [cx.pick([I, F]), cx.pick([I, F, B])]
+        return S(("R", (("f_a", et[0]), ("f_b", et[1]))) if kind == "R" else (kind, tuple(et)))
     if c == 8:
         sp = [t for _, t in seq_paths(cx, env)]
         return cx.pick(sp) if sp else I
